@@ -212,7 +212,7 @@ func ruleGRDstats(w *World, r *Report) {
 
 // ruleGRDfusion: alpha is clamped before use, and nothing cuts a candidate list to k before fusion.
 func ruleGRDfusion(w *World, r *Report) {
-	r.Doc("GRD-fusion", "in the hybrid branch alpha is clamped to [0,1] before it is used, both score lists are normalised before fusion, and no candidate list is cut to k before the fused scores are sorted", 2)
+	r.Doc("GRD-fusion", "in the hybrid branch alpha is clamped to [0,1] before it is used, both score lists are normalised before fusion, and no candidate list is cut to k before the fused scores are sorted", 1)
 	fi := w.Func("pkg/engine", "Engine.searchWithFusion")
 	if fi == nil {
 		r.Und("GRD-fusion", "anchor:searchWithFusion", "", "anchor lost")
@@ -536,7 +536,7 @@ func ruleSIB3(w *World, r *Report) {
 
 // ruleGRDreinforce: VReinforce stores count+1 and the current time.
 func ruleGRDreinforce(w *World, r *Report) {
-	r.Doc("GRD-reinforce", "VReinforce writes _access_count = previous + 1 (constant 1) and _last_accessed = now into the metadata it journals and stores", 2)
+	r.Doc("GRD-reinforce", "VReinforce writes _access_count = previous + 1 (constant 1) and _last_accessed = now into the metadata it journals and stores", 1)
 	fi := w.Func("pkg/engine", "Engine.VReinforce")
 	if fi == nil {
 		r.Und("GRD-reinforce", "anchor:VReinforce", "", "anchor lost")
@@ -631,7 +631,7 @@ func ruleGRDdecayall(w *World, r *Report) {
 
 // ruleSIBmetatypes: system metadata keys are written with the dynamic type their readers assert.
 func ruleSIBmetatypes(w *World, r *Report) {
-	r.Doc("SIB-metatypes", "every system metadata key (\"_…\") that some engine code reads with a single-type assertion (v.(float64)) is written, wherever the engine writes it, with exactly that dynamic type: in memory the value keeps the Go type it was stored with (only a restart turns numbers into float64), so an int written where float64 is asserted is silently read as absent", 2)
+	r.Doc("SIB-metatypes", "every system metadata key (\"_…\") that some engine code reads with a single-type assertion (v.(float64)) is written, wherever the engine writes it, with exactly that dynamic type: in memory the value keeps the Go type it was stored with (only a restart turns numbers into float64), so an int written where float64 is asserted is silently read as absent", 1)
 	type rd struct {
 		t   types.Type
 		pos token.Pos
@@ -720,5 +720,33 @@ func ruleSIBmetatypes(w *World, r *Report) {
 	r.Count("typed_system_key_writes", n)
 	if n < 2 {
 		r.Und("SIB-metatypes", "anchor:system-key-writes", "", fmt.Sprintf("expected ≥2 writes of system keys that are read with a type assertion, found %d", n))
+	}
+}
+
+// ruleSIBnumtypes: numeric metadata has ONE dynamic type after every decoding path. The secondary indexes, the decay
+// inputs and the reinforcement counter all assert float64; a decoder that is switched to json.Number on one
+// persistence path (snapshot restore) makes numeric filters, access counts and typed reads differ by how the state was
+// reached.
+func ruleSIBnumtypes(w *World, r *Report) {
+	r.Doc("SIB-numtypes", "no decoder of persisted state in pkg/core, pkg/engine or pkg/persistence enables json.Decoder.UseNumber: numeric metadata is float64 whichever path (log replay, snapshot restore, request) produced it", 1)
+	n := 0
+	for _, fi := range w.ModuleFuncs() {
+		rp := relPkg(fi.Obj)
+		if !(strings.HasPrefix(rp, "pkg/core") || rp == "pkg/engine" || rp == "pkg/persistence") {
+			continue
+		}
+		fn := w.SSAFunc(fi.Obj)
+		if fn == nil {
+			continue
+		}
+		for _, f := range append([]*ssa.Function{fn}, closuresOf(fn)...) {
+			for _, in := range findInstrs(f, func(in ssa.Instruction) bool { return isCallTo(in, "encoding/json", "Decoder.UseNumber") }) {
+				n++
+				r.Bad("SIB-numtypes", shortName(fi.Obj)+":decodes-numbers-as-json.Number", w.Pos(in.Pos()), shortName(fi.Obj)+" decodes persisted JSON with UseNumber: numbers come back as json.Number on this path and as float64 on every other one — numeric filters stop matching restored nodes (only float64 enters the B-tree), access counts restart, typed reads differ after a restart through this path")
+			}
+		}
+	}
+	if n == 0 {
+		r.Ok("SIB-numtypes", "persisted-json-decodes-numbers-as-float64", "", "no UseNumber in the persistence layers")
 	}
 }
